@@ -149,3 +149,41 @@ package decoration
 //@   requires ruleOK(e)
 //@   assigns new(string)
 //@   ensures [boxless-emits-no-rules] e.decor.isBoxless ==> result == "" @C03
+
+//@ -- the registry: one mutex-guarded map; every access to registry.table needs the lock (ghost lockHeld)
+//@ guard registry.table by lockHeld @C17,C16
+//@ globalinv registry.table != nil @C17
+
+//@ func init#1
+//@   tags C17,C09
+//@   requires !lockHeld
+//@   assigns registry.table, ghost lockHeld
+//@   ensures registry.table != nil && !lockHeld
+
+//@ func RegisterDecorationName
+//@   tags C17,C16,C09
+//@   requires [lock-free-on-entry] !lockHeld
+//@   assigns mapof(registry.table), ghost lockHeld
+//@   ensures [lock-released] !lockHeld @C17
+//@   ensures [registered-latest-wins] has(registry.table, name) && registry.table[name] == decor @C17
+//@   ensures [others-kept] forall k Str :: {has(registry.table, k)} k != name ==> (has(registry.table, k) <==> old(has(registry.table, k))) && (has(registry.table, k) ==> registry.table[k] == old(registry.table[k])) @C17
+
+//@ func Named
+//@   tags C17,C16,C09
+//@   requires [lock-free-on-entry] !lockHeld
+//@   assigns ghost lockHeld
+//@   ensures [lock-released] !lockHeld @C17
+//@   ensures [registered-or-empty] result == (has(registry.table, n) ? registry.table[n] : EmptyDecoration) @C17
+
+//@ func RegisteredDecorationNames
+//@   tags C17,C16,C19,C09
+//@   requires [lock-free-on-entry] !lockHeld
+//@   assigns ghost lockHeld, ghost it_visited, ghost it_count
+//@   ensures [lock-released] !lockHeld @C17
+//@   ensures [sorted] forall i int, j int :: {result[i], result[j]} 0 <= i && i < j && j < len(result) ==> strLE(result[i], result[j]) @C17,C19
+//@   ensures [every-registered-name-exactly-once] len(result) == len(registry.table) && forall s Str :: {countIn(heap[string], result, len(result), s)} countIn(heap[string], result, len(result), s) == (has(registry.table, s) ? 1 : 0) @C17,C19
+//@   loop#1 invariant lockHeld && 0 <= i && i == it_count && i <= len(a) && len(a) == len(registry.table) && fresh(a)
+//@   loop#1 invariant forall s Str :: {it_visited[s]} (it_visited[s] ==> has(registry.table, s)) && countIn(heap[string], a, i, s) == (it_visited[s] ? 1 : 0)
+//@   loop#1 decreases len(a) - i
+//@   loop#1 unfold forall s Str :: countIn(heap[string], a, i, s)
+//@   loop#1 use forall s Str :: {countIn(heap[string], a, i - 1, s)} countIn_frame(at(loop1, heap[string]), heap[string], a, i - 1, s)
